@@ -663,7 +663,7 @@ class Worker:
                 continue
 
     # ---- one request
-    def run(self, data, mode, budget=3.0, rss_mb=3072):
+    def run(self, data, mode, budget=3.0, rss_mb=3072, flood_bytes=768 * 1024):
         if self.proc is None or self.proc.poll() is not None:
             if self.proc is not None:
                 self.stop()
@@ -701,6 +701,8 @@ class Worker:
                     why = "rss"
                 elif time.time() - t0 > wall_cap:
                     why = "wall"
+                elif self._log_size() - start_off > flood_bytes:
+                    why = "flood"
                 if why and not killed and pid:
                     srid, sphase = self._phase()
                     if srid != rid or sphase == "idle":
@@ -718,7 +720,7 @@ class Worker:
                     except OSError:
                         pass
                     t_kill = time.time()
-                elif killed and time.time() - t_kill > 10.0:
+                elif killed and pid and time.time() - t_kill > 10.0:
                     try:
                         os.kill(pid, signal.SIGKILL)
                     except OSError:
@@ -743,7 +745,7 @@ class Worker:
                     self._maybe_rotate()
                     return rep
                 srid, sphase = self._phase()
-                if srid != rid or sphase == "idle":
+                if not killed and (srid != rid or sphase == "idle"):
                     # died outside any request (e.g. while idle): not attributable to this
                     # input; the request is still in the pipe for the next child
                     self.idle_deaths = getattr(self, "idle_deaths", 0) + 1
